@@ -45,7 +45,7 @@ var c02Events = []c02Ev{
 	{"man:del", true, "route del a", true},
 	{"man:add", true, "route add m /m http://m:80/ opts \"strip=/m\"", true},
 	{"man:invalid", true, "route del", false},
-	{"man:nomatch", true, "route weight zz /nope weight 0.5", false},
+	{"man:nomatch", true, "route weight zz /nope weight 0.5", true},
 }
 
 type c02State struct {
